@@ -453,13 +453,47 @@ def call_contract(con: Contract, real, args, kwargs):
         elif isinstance(result, SymObj) and not result._frozen:
             sym.mark_born(result)
     avail["result"] = result
-    if con.ensures is not None:
-        c.assume(call_with(con.ensures, avail))
+
+    def exported(f):
+        # a clause about the callee's own effect trace is internal: it is not assumed by callers
+        return "trace" not in inspect.signature(f).parameters
+
+    def assume_clause(f):
+        v = call_with(f, avail)
+        t = B(v)
+        if t.is_lit and not tm.litval(t):
+            # a postcondition that is literally false for a fresh result means the contract cannot be used as
+            # a callee contract as written (it would silently discard the caller's path)
+            raise ContractError(f"postcondition of {con.qual} is literally false when used as a callee contract")
+        c.assume(v)
+
+    if con.ensures is not None and exported(con.ensures):
+        assume_clause(con.ensures)
     if con.ensures_named:
         for _, f in con.ensures_named.items():
-            c.assume(call_with(f, avail))
+            if exported(f):
+                assume_clause(f)
     c.event("call", callee=con.name, args=bound, result=result, old=old)
     return result
+
+
+def invoke(fn, args: dict):
+    """Call fn with the contract's arguments, honouring positional-only, *args and **kwargs parameters."""
+    sig = inspect.signature(fn)
+    pos, kw = [], {}
+    for p in sig.parameters.values():
+        if p.name not in args:
+            continue
+        v = args[p.name]
+        if p.kind is p.POSITIONAL_ONLY:
+            pos.append(v)
+        elif p.kind is p.VAR_POSITIONAL:
+            pos.extend(v)
+        elif p.kind is p.VAR_KEYWORD:
+            kw.update(v)
+        else:
+            kw[p.name] = v
+    return fn(*pos, **kw)
 
 
 class Obligation:
@@ -555,10 +589,12 @@ def verify_function(con: Contract) -> FnReport:
             if con.events:
                 c.data["event_guards"] = con.events
             try:
-                result = fn(**args)
+                result = invoke(fn, args)
                 outcome = ("return", result)
                 c.data["result"] = result
-            except (PathEnd, Infeasible, Unsupported):
+            except PathEnd:
+                outcome = ("cut", None)
+            except (Infeasible, Unsupported):
                 raise
             except RecursionError:
                 raise Unsupported("recursion limit") from None
@@ -571,7 +607,9 @@ def verify_function(con: Contract) -> FnReport:
             avail["old"] = old
             avail["trace"] = c.trace
             avail["ghost"] = c.data["ghost"]
-            if outcome[0] == "return":
+            if outcome[0] == "cut":
+                pass
+            elif outcome[0] == "return":
                 avail["result"] = outcome[1]
                 for exc, cond in con.raises.items():
                     c.prove(f"noraise.{exc.__name__}", vcrt.RT().not_(call_with(cond, avail)), kind="raises")
@@ -601,7 +639,9 @@ def verify_function(con: Contract) -> FnReport:
                     c.prove(f"raise.{type(e).__name__}", call_with(cond, avail), kind="raises")
             if con.finish is not None:
                 con.finish(c, outcome, args, old)
-            key = outcome[0] if outcome[0] == "return" else "raise " + type(outcome[1]).__name__
+            key = outcome[0] if outcome[0] != "raise" else "raise " + type(outcome[1]).__name__
+            if outcome[0] == "cut":
+                key = "loop-cut"
             rep.outcomes[key] = rep.outcomes.get(key, 0) + 1
         except PathEnd:
             rep.outcomes["loop-cut"] = rep.outcomes.get("loop-cut", 0) + 1
